@@ -17,4 +17,237 @@ theorem single_slot_restored {β : Type} (cells : List (Cell β)) (k : Key) (c :
   obtain ⟨n, hn⟩ : ∃ n, cells.length + 1 = n + 2 := ⟨cells.length - 1, by omega⟩
   simp [serve, rebuildKey, honly, useNewSlot, addSlotToEntry, hin, hsz, hne, hpos, finalizeOrFree, walk, hnx, validate, chainData, hn]
 
+/-! ### complete multi-slot chains, in any positions of the file -/
+
+def toSlice {β : Type} (c : Cell β) : Slice := { slot := c.slot, size := c.payload, next := c.next }
+
+/-- the cells are linked in list order, the last one ends the chain -/
+def linked {β : Type} : List (Cell β) → Prop
+  | [] => True
+  | [c] => c.next = none
+  | c :: d :: rest => c.next = some d.slot ∧ linked (d :: rest)
+
+/-- the state of the per-entry loading machine after the cells `pre` (in scan order) of one multi-slot chain -/
+def foldState {β : Type} (inode : Nat) (pre : List (Cell β)) : St :=
+  { le := { state := .loading, anchored := pre.any (fun c => c.slot == inode), size := (pre.map (·.payload)).sum, total := 0,
+            start := if pre.any (fun c => c.slot == inode) then some inode else pre.getLast?.map (·.slot) },
+    slices := pre.map toSlice }
+
+theorem add_step {β : Type} (inode : Nat) (pre : List (Cell β)) (c : Cell β) (s : St)
+    (hs : s = foldState inode pre ∨ (pre = [] ∧ s = { le := { state := .loading } }))
+    (hfirst : c.first = inode) (hes : c.slot = inode → c.entrySize = 0)
+    (hone : c.slot = inode → pre.any (fun x => x.slot == inode) = false) :
+    addSlotToEntry s c = foldState inode (pre ++ [c]) := by
+  have hs' : s = foldState inode pre := by
+    rcases hs with h | ⟨h1, h2⟩
+    · exact h
+    · subst h1; rw [h2]; simp [foldState]
+  subst hs'
+  by_cases hi : c.slot = inode
+  · have h0 := hes hi
+    have h1 := hone hi
+    simp [addSlotToEntry, foldState, hfirst, hi, h0, h1, toSlice, List.any_append]
+  · have hne : (inode == c.slot) = false := by simp; exact fun h => hi h.symm
+    have hne2 : (c.slot == inode) = false := by simp [hi]
+    cases ha : pre.any (fun x => x.slot == inode) <;>
+      simp [addSlotToEntry, foldState, hfirst, hne, hne2, ha, toSlice, List.any_append, List.getLast?_append]
+
+/-- the cells a multi-slot entry consists of, in chain order -/
+structure IsChain {β : Type} (k : Key) (cs : List (Cell β)) (inode : Nat) : Prop where
+  keys : ∀ c ∈ cs, c.key = k
+  pos : ∀ c ∈ cs, 0 < c.payload
+  nodup : (cs.map (·.slot)).Nodup
+  firsts : ∀ c ∈ cs, c.first = inode
+  head : (cs.head?.map (·.slot)) = some inode
+  /-- the first write of a multi-slot entry does not know the entry size yet -/
+  inodeSize : ∀ c ∈ cs, c.slot = inode → c.entrySize = 0
+  links : linked cs
+
+theorem fold_cells {β : Type} (inode : Nat) (rest : List (Cell β)) :
+    ∀ (pre : List (Cell β)) (s : St), (s = foldState inode pre ∨ (pre = [] ∧ s = {})) →
+    (∀ c ∈ rest, c.first = inode) → (∀ c ∈ rest, c.slot = inode → c.entrySize = 0) →
+    ((pre ++ rest).map (·.slot)).Nodup → (pre = [] → rest ≠ []) →
+    rest.foldl useNewSlot s = foldState inode (pre ++ rest) := by
+  induction rest with
+  | nil =>
+    intro pre s hs _ _ _ hne
+    rcases hs with h | ⟨h1, _⟩
+    · simp [h]
+    · exact absurd rfl (hne h1)
+  | cons c rest ih =>
+    intro pre s hs hf he hn _
+    simp only [List.foldl_cons]
+    have hone : c.slot = inode → pre.any (fun x => x.slot == inode) = false := by
+      intro hc
+      rw [List.any_eq_false]
+      intro x hx
+      simp only [beq_iff_eq]
+      intro hxi
+      have hn' : ((pre ++ c :: rest).map (·.slot)).Nodup := hn
+      rw [List.map_append, List.nodup_append] at hn'
+      exact hn'.2.2 x.slot (List.mem_map.mpr ⟨x, hx, rfl⟩) c.slot (by simp) (hxi.trans hc.symm)
+    have hstep : useNewSlot s c = foldState inode (pre ++ [c]) := by
+      rcases hs with h | ⟨h1, h2⟩
+      · subst h
+        cases pre with
+        | nil =>
+          simp only [useNewSlot, foldState, List.any_nil, List.map_nil, List.sum_nil, Bool.false_eq_true, if_false, List.getLast?_nil, Option.map_none]
+          exact add_step inode [] c _ (Or.inr ⟨rfl, rfl⟩) (hf c (by simp)) (he c (by simp)) hone
+        | cons p ps =>
+          have : (foldState inode (p :: ps)).le.state = .loading := rfl
+          simp only [useNewSlot, this]
+          exact add_step inode (p :: ps) c _ (Or.inl rfl) (hf c (by simp)) (he c (by simp)) hone
+      · subst h1 h2
+        simp only [useNewSlot]
+        exact add_step inode [] c _ (Or.inr ⟨rfl, rfl⟩) (hf c (by simp)) (he c (by simp)) hone
+    rw [hstep]
+    have e1 : pre ++ c :: rest = (pre ++ [c]) ++ rest := by simp
+    rw [e1]
+    exact ih (pre ++ [c]) _ (Or.inl rfl) (fun x hx => hf x (List.mem_cons_of_mem _ hx)) (fun x hx => he x (List.mem_cons_of_mem _ hx))
+      (by rw [← e1]; exact hn) (by intro h; simp at h)
+
+theorem find_slice {β : Type} (P : List (Cell β)) (hn : (P.map (·.slot)).Nodup) (c : Cell β) (hc : c ∈ P) :
+    (P.map toSlice).find? (fun s => s.slot == c.slot) = some (toSlice c) := by
+  induction P with
+  | nil => cases hc
+  | cons p ps ih =>
+    simp only [List.map_cons, List.nodup_cons, List.mem_map, not_exists, not_and] at hn
+    rcases List.mem_cons.mp hc with h | h
+    · subst h; simp [toSlice]
+    · have hne : p.slot ≠ c.slot := fun hh => hn.1 c h hh.symm
+      have : ((toSlice p).slot == c.slot) = false := by simp [toSlice, hne]
+      simp only [List.map_cons, List.find?_cons, this]
+      exact ih hn.2 h
+
+theorem filter_slices {β : Type} (P : List (Cell β)) (id : Nat) :
+    (P.map toSlice).filter (fun x => !(x.slot == id)) = (P.filter (fun c => !(c.slot == id))).map toSlice := by
+  induction P with
+  | nil => rfl
+  | cons p ps ih =>
+    by_cases h : p.slot = id <;> simp [toSlice, h] at ih ⊢ <;> exact ih
+
+theorem walk_chain {β : Type} (suffix : List (Cell β)) :
+    ∀ (P : List (Cell β)) (fuel seen size : Nat), suffix ≠ [] → linked suffix → (∀ c ∈ suffix, c ∈ P) → (P.map (·.slot)).Nodup →
+    (suffix.map (·.slot)).Nodup → (∀ c ∈ suffix, 0 < c.payload) → seen + (suffix.map (·.payload)).sum = size → suffix.length < fuel →
+    walk (P.map toSlice) fuel (suffix.head?.map (·.slot)) seen size = some (suffix.map (·.slot)) := by
+  induction suffix with
+  | nil => intro _ _ _ _ h; exact absurd rfl h
+  | cons c rest ih =>
+    intro P fuel seen size _ hl hsub hn hsn hpos hsum hfuel
+    obtain ⟨f, hf⟩ : ∃ f, fuel = f + 1 := ⟨fuel - 1, by simp at hfuel; omega⟩
+    subst hf
+    have hcp := hpos c (by simp)
+    have hlt : seen < size := by simp at hsum; omega
+    have hfind := find_slice P hn c (hsub c (by simp))
+    simp only [List.head?_cons, Option.map_some, walk, hlt, if_true, hfind]
+    have hsz : (toSlice c).size ≠ 0 := by simp [toSlice]; omega
+    simp only [toSlice, Bool.false_eq_true, if_false] at hsz ⊢
+    simp only [hsz, if_false]
+    rw [show (List.map toSlice P).filter (fun x => !(x.slot == c.slot)) = (P.filter (fun x => !(x.slot == c.slot))).map toSlice from filter_slices P c.slot]
+    cases rest with
+    | nil =>
+      simp only [linked] at hl
+      obtain ⟨f', hf'⟩ : ∃ f', f = f' + 1 := ⟨f - 1, by simp at hfuel; omega⟩
+      subst hf'
+      have : seen + c.payload = size := by simp at hsum; omega
+      simp [hl, walk, this]
+    | cons d rest' =>
+      simp only [linked] at hl
+      simp only [List.map_cons, List.nodup_cons, List.mem_cons, List.mem_map, not_or, not_exists, not_and] at hsn
+      have hres := ih (P.filter (fun x => !(x.slot == c.slot))) f (seen + c.payload) size (by simp) hl.2
+        (by
+          intro x hx
+          simp only [List.mem_filter, Bool.not_eq_true', beq_eq_false_iff_ne, ne_eq]
+          refine ⟨hsub x (List.mem_cons_of_mem _ hx), ?_⟩
+          intro hxc
+          rcases List.mem_cons.mp hx with h1 | h1
+          · subst h1; exact hsn.1.1 hxc.symm
+          · exact hsn.1.2 x h1 hxc)
+        (List.Nodup.sublist (List.Sublist.map _ List.filter_sublist) hn)
+        (by simp only [List.map_cons, List.nodup_cons, List.mem_map, not_exists, not_and]; exact hsn.2)
+        (fun x hx => hpos x (List.mem_cons_of_mem _ hx))
+        (by simp at hsum ⊢; omega)
+        (by simp at hfuel ⊢; omega)
+      simp only [List.head?_cons, Option.map_some] at hres
+      simp [hl.1, hres]
+
+theorem chainData_chain {β : Type} (suffix : List (Cell β)) :
+    ∀ (P : List (Cell β)) (fuel : Nat), suffix ≠ [] → linked suffix → (∀ c ∈ suffix, c ∈ P) → (P.map (·.slot)).Nodup → suffix.length < fuel →
+    chainData P fuel (suffix.head?.map (·.slot)) = some (suffix.map (·.data)) := by
+  induction suffix with
+  | nil => intro _ _ h; exact absurd rfl h
+  | cons c rest ih =>
+    intro P fuel _ hl hsub hn hfuel
+    obtain ⟨f, hf⟩ : ∃ f, fuel = f + 1 := ⟨fuel - 1, by simp at hfuel; omega⟩
+    subst hf
+    have hfind : P.find? (fun x => x.slot == c.slot) = some c := by
+      have hc := hsub c (by simp)
+      clear ih hl hsub hfuel
+      induction P with
+      | nil => cases hc
+      | cons p ps ihp =>
+        simp only [List.map_cons, List.nodup_cons, List.mem_map, not_exists, not_and] at hn
+        rcases List.mem_cons.mp hc with h | h
+        · subst h; simp [List.find?]
+        · have hne : (p.slot == c.slot) = false := by simp; exact fun hh => hn.1 c h hh.symm
+          simp only [List.find?_cons, hne]; exact ihp hn.2 h
+    simp only [List.head?_cons, Option.map_some, chainData, hfind]
+    cases rest with
+    | nil =>
+      simp only [linked] at hl
+      obtain ⟨f', hf'⟩ : ∃ f', f = f' + 1 := ⟨f - 1, by simp at hfuel; omega⟩
+      subst hf'
+      simp [hl, chainData]
+    | cons d rest' =>
+      simp only [linked] at hl
+      have hres := ih P f (by simp) hl.2 (fun x hx => hsub x (List.mem_cons_of_mem _ hx)) hn (by simp at hfuel ⊢; omega)
+      simp only [List.head?_cons, Option.map_some] at hres
+      simp [hl.1, hres]
+
+/-- If the cells carrying key `k` are, in whatever positions of the file, exactly the cells of one complete multi-slot entry, the
+rebuild indexes it and a hit reads its pieces in chain order. -/
+theorem chain_restored {β : Type} (cells : List (Cell β)) (k : Key) (cs : List (Cell β)) (inode : Nat)
+    (hch : IsChain k cs inode) (hlen : 2 ≤ cs.length) (hperm : (cells.filter (fun x => x.key == k)).Perm cs) :
+    serve cells k = some (cs.map (·.data)) := by
+  generalize hP : cells.filter (fun x => x.key == k) = P at hperm
+  have hPn : (P.map (·.slot)).Nodup := ((hperm.map (·.slot)).nodup_iff).mpr hch.nodup
+  have hPne : P ≠ [] := by
+    intro h; rw [h] at hperm; have := hperm.length_eq; simp at this; omega
+  have hmem : ∀ c, c ∈ P ↔ c ∈ cs := fun c => hperm.mem_iff
+  have hfold : P.foldl useNewSlot {} = foldState inode P := by
+    have := fold_cells inode P [] {} (Or.inr ⟨rfl, rfl⟩) (fun c hc => hch.firsts c ((hmem c).mp hc))
+      (fun c hc => hch.inodeSize c ((hmem c).mp hc)) (by simpa using hPn) (fun _ => hPne)
+    simpa using this
+  obtain ⟨c0, rest, hcs⟩ : ∃ c0 rest, cs = c0 :: rest := by
+    cases cs with
+    | nil => simp at hlen
+    | cons a b => exact ⟨a, b, rfl⟩
+  have hinode : c0.slot = inode := by
+    have := hch.head; rw [hcs] at this; simpa using this
+  have hany : P.any (fun c => c.slot == inode) = true := by
+    rw [List.any_eq_true]
+    exact ⟨c0, (hmem c0).mpr (by rw [hcs]; simp), by simp [hinode]⟩
+  have hsum : (P.map (·.payload)).sum = (cs.map (·.payload)).sum := (hperm.map (·.payload)).sum_nat
+  have hpos0 : 0 < (cs.map (·.payload)).sum := by
+    rw [hcs]; have := hch.pos c0 (by rw [hcs]; simp); simp; omega
+  have hwalk := walk_chain cs P (P.length + 1) 0 (cs.map (·.payload)).sum (by rw [hcs]; simp) hch.links
+    (fun c hc => (hmem c).mpr hc) hPn hch.nodup hch.pos (by simp) (by rw [hperm.length_eq]; omega)
+  have hhead : cs.head?.map (·.slot) = some inode := hch.head
+  rw [hhead] at hwalk
+  have hcd := chainData_chain cs P (cells.length + 1) (by rw [hcs]; simp) hch.links (fun c hc => (hmem c).mpr hc) hPn
+    (by
+      have h1 : P.length ≤ cells.length := by rw [← hP]; exact List.length_filter_le _ _
+      rw [← hperm.length_eq]; omega)
+  rw [hhead] at hcd
+  unfold serve rebuildKey
+  rw [hP, hfold]
+  have hsz : (foldState inode P).le.size ≠ 0 := by simp only [foldState]; omega
+  have hval : validate (foldState inode P) = { foldState inode P with le := { (foldState inode P).le with state := .loaded, total := (foldState inode P).le.size } } := by
+    have hsz2 : ¬ (cs.map (·.payload)).sum = 0 := by omega
+    simp only [validate, foldState, finalizeOrFree]
+    simp only [hany, if_true, List.length_map, hsum, hwalk, hsz2, if_false]
+  rw [hval]
+  simp only [foldState, hany, if_true]
+  exact hcd
+
 end SquidModel.Cache.RestartRock
